@@ -1,4 +1,4 @@
-//go:build verif && go1.25
+//go:build verif
 
 // Correspondence harness of property C15 (TCP mux): the real TCPMuxDefault / tcpPacketConn /
 // MultiTCPMuxDefault driven, one operation per line, inside a testing/synctest bubble (virtual
@@ -536,7 +536,7 @@ func (s *vTcpSess) digest(res string) string {
 		g.acc, g.hand, g.watch, g.read, g.writ, g.other, l, ret)
 }
 
-func vtmAtoi(s string) int {
+func vTcpAtoi(s string) int {
 	n, err := strconv.Atoi(s)
 	if err != nil {
 		return -1
@@ -562,7 +562,7 @@ func (s *vTcpSess) op(t []string) string {
 func (s *vTcpSess) op1(t []string) string {
 	a := func(i int) int {
 		if i < len(t) {
-			return vtmAtoi(t[i])
+			return vTcpAtoi(t[i])
 		}
 		return -1
 	}
@@ -574,7 +574,7 @@ func (s *vTcpSess) op1(t []string) string {
 	}
 	handle := func(i int) *vTcpHandle {
 		if i < len(t) && strings.HasPrefix(t[i], "h") {
-			if k := vtmAtoi(t[i][1:]); k >= 0 && k < len(s.handles) {
+			if k := vTcpAtoi(t[i][1:]); k >= 0 && k < len(s.handles) {
 				return s.handles[k]
 			}
 		}
@@ -850,7 +850,7 @@ func (s *vTcpSess) multi(t []string) string {
 	if len(t) != 4 {
 		return "bad-op"
 	}
-	n, bad := vtmAtoi(t[2]), vtmAtoi(t[3])
+	n, bad := vTcpAtoi(t[2]), vTcpAtoi(t[3])
 	if n < 0 || n > 4 || bad >= n {
 		return "bad-op"
 	}
@@ -943,6 +943,9 @@ var vTcpScripts = [][]string{
 	{ // removal by ufrag closes both families; handles stay usable as closed
 		"new 4 4096 30 50", "getconn Ua 0 0", "getconn Ua 1 2", "getconn Ub 0 0", "accept 0 0 1000 0", "frame 0 1 ua 32", "accept 1 2 1000 2", "frame 1 2 ua 32",
 		"accept 2 0 1001 0", "frame 2 3 ub 32", "remove Ua", "read h0", "read h0", "write h0 0 1000 5 5", "read h2", "write h2 0 1001 6 5", "closeh h0", "closepc h2", "read h2", "read h2", "end"},
+	{ // F22 / O1: closing the IPv4-flag packet connection of (b, "10.0.0.1") must leave the IPv6-flag one and its client alone
+		"new 4 0 30 50", "getconn Ub 1 0", "getconn Ub 0 0", "accept 0 2 1000 0", "frame 0 1 ub 32", "closeh h1", "read h0",
+		"write h0 2 1000 9 8", "frame 0 2 d 12", "read h0", "closeh h0", "end"},
 	{ // empty ufrag, two handles on one connection, default timeouts
 		"new 2 0 0 0", "accept 0 0 1000 0", "frame 0 1 u 32", "getconn U 0 0", "getconn U 0 0", "closeh h0", "read h1", "advance 29999", "accept 1 0 1001 0", "advance 1", "advance 29999", "advance 1", "closeh h1", "end"},
 }
